@@ -1185,7 +1185,31 @@ func genC11() *rapid.Generator[*Spec] {
 		bi := binds[x.intn(0, len(binds)-1, "bind")]
 		it := &s.Items[bi]
 		m := NewModel(s)
-		mut := x.pick([]string{"none", "dropmethod", "ptrrecv", "self", "isolate", "isolate", "unprovide", "ptrconc", "valconc", "unbind", "ifaceconc"}, "mut")
+		mut := x.pick([]string{"argbind", "none", "dropmethod", "ptrrecv", "self", "isolate", "isolate", "unprovide", "ptrconc", "valconc", "unbind", "ifaceconc"}, "mut")
+		if mut == "argbind" {
+			// a new injector without any provider call: the interface is bound to
+			// its SECOND argument, and the first argument implements it too
+			need := IfaceMethods(s, it.Out)
+			if len(need) == 0 || typeMinPkg(s, it.Out, 0) != 0 && false {
+				mut = "none"
+			} else {
+				mk := func(name string) *Type {
+					d := Decl{Pkg: 0, Name: x.fresh(name), Form: "struct", Fields: []SField{{Name: "Tok", T: Basic("int")}}}
+					for _, mn := range need {
+						d.Methods = append(d.Methods, Method{Name: mn, PtrRecv: true})
+					}
+					s.Decls = append(s.Decls, d)
+					return Ptr(Named(len(s.Decls) - 1))
+				}
+				first, second := mk("ArgA"), mk("ArgB")
+				nb := addItem(s, Item{Kind: "bind", Out: it.Out, Conc: second})
+				s.Injectors = append(s.Injectors, Injector{Name: x.fresh("InjectArgBind"), Out: s.Items[bi].Out, Args: []Ref{RItem(nb)},
+					Params: []Param{{Name: "zza", T: first}, {Name: "zzb", T: second}}, Panic: x.pct(50, "abpanic")})
+				s.Note = "C11 argbind"
+				refreshPlan(s)
+				return s
+			}
+		}
 		ct := resolveT(s, it.Conc)
 		base := ct
 		if ct.K == "ptr" {
